@@ -70,6 +70,18 @@ func (nloc *nodeLoc) setNode(n *node) {
 	nloc.node = n
 }
 
+func (nloc *nodeLoc) casNode(o, n *node) bool {
+	if nodeMutex {
+		nodeLocGL.Lock()
+		defer nodeLocGL.Unlock()
+	}
+	if nloc.node == o {
+		nloc.node = n
+		return true
+	}
+	return false
+}
+
 func (nloc *nodeLoc) LocNode() (*ploc, *node) {
 	if nodeMutex {
 		nodeLocGL.RLock()
@@ -202,7 +214,13 @@ func (nloc *nodeLoc) read(o *Store) (n *node, err error) {
 		return n, err
 	}
 
-	nloc.setNode(n)
+	if !nloc.casNode(nil, n) {
+		// A concurrent reader has loaded the node already; use that one,
+		// so there's only one copy of the node (and of its cached item).
+		if cur := nloc.Node(); cur != nil {
+			return cur, nil
+		}
+	}
 	return n, nil
 }
 
